@@ -1,4 +1,4 @@
-from vp.core import Inst
+from vp.core import Inst, API_UNWINDSET
 
 LEVEL = "model_checking"
 PD_OPS = {"CLEAR": 0, "SRC": 1, "DST": 2, "OVER": 3, "OVER_REVERSE": 4, "IN": 5, "IN_REVERSE": 6, "OUT": 7,
@@ -45,18 +45,36 @@ def instances(tier):
                     dd = dict(base); dd.update({"MODE": mode, "MASK_FIX": mk, "SA_FIX": sa, "DA_FIX": da})
                     L.append(Inst("k8-blend-%s-%s-m%s-sa%d-da%d" % (name, MODES[mode], mk[2:10], sa, da), "C01/k8.c", dd, **kw,
                                   desc={"layer": "masked integer PDF blend combiner vs exact formula; mask and alphas concrete, colours symbolic"}))
+    # float pipeline: mask law (masked combine == unmasked combine of the pre-masked source)
+    FLOAT_OPS = {"OVER": 0x03, "ADD": 0x0c, "SATURATE": 0x0d, "DISJOINT_OVER": 0x13, "CONJOINT_XOR": 0x2b, "MULTIPLY": 0x30, "SCREEN": 0x31,
+                 "COLOR_DODGE": 0x35, "DIFFERENCE": 0x39, "HSL_HUE": 0x3b, "HSL_SATURATION": 0x3c, "HSL_COLOR": 0x3d, "HSL_LUMINOSITY": 0x3e}
+    fq = ("OVER", "ADD", "MULTIPLY", "HSL_HUE", "HSL_SATURATION", "HSL_COLOR", "HSL_LUMINOSITY")
+    for name, op in FLOAT_OPS.items():
+        for col in ((0,) if tier == "quick" else (0, 1, 2)):
+            if tier == "quick" and name not in fq:
+                continue
+            L.append(Inst("kf-masklaw-%s-col%d" % (name, col), "C01/kf_mask.c", {"OP": op, "COLFIX": col}, link=[], unwind=6, timeout=900,
+                          models=("env_stubs.c", "libm_stubs.c"),
+                          desc={"layer": "float combiner: combining through a mask == combining the pre-masked source, bit-identical; mask alpha symbolic, colours from a menu"}))
+    # API layer: pixman_image_composite32 on 1x2 images vs the Porter-Duff oracle
+    for name, mode, sf, df in (("OVER", 0, "a8r8g8b8", "a8r8g8b8"), ("IN_REVERSE", 0, "x8r8g8b8", "a8r8g8b8"), ("ATOP", 2, "a8r8g8b8", "x8r8g8b8"), ("ADD", 1, "a8r8g8b8", "a8r8g8b8")):
+        L.append(Inst("api-%s-%s-%s-%s" % (name, MODES[mode], sf, df), "C01/api.c",
+                      {"OP": PD_OPS[name], "MODE": mode, "W": 2, "SRC_FMT": "PIXMAN_" + sf, "DST_FMT": "PIXMAN_" + df, "VP_REL": None},
+                      unwind=12, unwindset=API_UNWINDSET, objbits=12, timeout=900,
+                      desc={"layer": "pixman_image_composite32 (fetch, combine, store through the real library) vs the Porter-Duff oracle; all pixels symbolic"}))
     return L
 
 TEXT = ("Bounded model checking of the real combiner code: every 8-bit Porter-Duff/ADD combiner of pixman-combine32.c "
         "(unmasked, unified and component-alpha mask) equals the per-channel Render equation (each product rounded to nearest, "
         "saturating sums) for ALL 2^96 pixel triples, via an assume-guarantee split (macro == spec lemmas for all arguments, "
         "then combiner with re-bound macros vs oracle); integer PDF blend combiners are within rounding of the exact "
-        "real-valued formula; float combiners and the composite32 API path are checked at small sizes.")
+        "real-valued formula; float combiners obey the mask law (masked == pre-masked, bit-identical, mask alpha symbolic); "
+        "pixman_image_composite32 on 2x1 images equals the oracle for a few operator/format combinations (all pixels symbolic).")
 NOTE = ("Trusted: CBMC's C semantics, the oracle headers oracle/arith.h, oracle/pd.h (independent of pixman's macros), the "
         "uninterpreted-function abstraction of o_mul255 (its algebraic facts are proved by lemma 0). Bounds: width <= 2 per call; "
         "hard blend operators (MULTIPLY/DARKEN/LIGHTEN) and masked blend operators only for alphas/masks on a concrete grid.")
 RULE = "C01 instance = (layer, operator, mask mode[, alpha/mask grid point])."
 BOUNDS = {"width": "1-2 pixels per combiner call", "pixels": "all 32-bit values symbolic",
           "blend_hard_ops": "source/dest alpha from grid, colours symbolic", "masked_blend": "mask and alphas concrete, colours symbolic"}
-OUTSIDE = ["SOFT_LIGHT (sqrtf)", "alpha pairs outside the grid for MULTIPLY/DARKEN/LIGHTEN and masked blend operators", "dithering"]
+OUTSIDE = ["float combiner values against the real-valued equations (only the mask law is decided)", "SOFT_LIGHT (sqrtf)", "alpha pairs outside the grid for MULTIPLY/DARKEN/LIGHTEN and masked blend operators", "dithering"]
 ASSUMPTIONS = ["PDF blend operators: inputs premultiplied (colour <= alpha), as the statement says"]
